@@ -156,13 +156,14 @@ type Registry struct {
 	strOrder   []string
 	nativeStr  bool // use SMT String theory for Str
 	arraySorts map[string]bool
+	zeroArrays map[string][2]string
 }
 
 func newRegistry() *Registry {
 	return &Registry{
 		structs: map[string]*structInfo{}, structByT: map[string]*structInfo{},
 		opaque: map[string]string{}, usorts: map[string]bool{}, heapSorts: map[string]bool{},
-		strLits: map[string]string{}, arraySorts: map[string]bool{},
+		strLits: map[string]string{}, arraySorts: map[string]bool{}, zeroArrays: map[string][2]string{},
 	}
 }
 
@@ -376,7 +377,9 @@ func (r *Registry) zeroOfSort(s string, t types.Type) string {
 			return r.mk(si, vals)
 		}
 		if a, ok := t.Underlying().(*types.Array); ok {
-			return app("(as const "+s+")", r.zero(a.Elem()))
+			z := "zarr!" + sanitize(heapName(s))
+			r.zeroArrays[z] = [2]string{s, r.zero(a.Elem())}
+			return z
 		}
 	}
 	r.usorts[s] = true
@@ -451,6 +454,9 @@ func (r *Registry) prelude() string {
 			}
 			b.WriteString("))\n")
 		}
+	}
+	for z, v := range r.zeroArrays {
+		fmt.Fprintf(&b, "(declare-fun %s () %s)\n(assert (forall ((i Int)) (! (= (select %s i) %s) :pattern ((select %s i)))))\n", z, v[0], z, v[1], z)
 	}
 	return b.String()
 }
